@@ -72,7 +72,7 @@ theorem cpp_names_injective_mod_case (a b : List Char) (ha : WitName a) (hb : Wi
   rw [toCIdent_eq, toCIdent_eq] at h
   exact escapeS_injective_mod_case escapeTable table_values_injective table_values_end_us a b ha hb h
 
-theorem cpp_names_injective (a b : List Char) (ha : WitName a) (hb : WitName b)
+theorem cpp_names_injective_of_ne_mod_case (a b : List Char) (ha : WitName a) (hb : WitName b)
     (hne : a.map lowA ≠ b.map lowA) : toCIdent a ≠ toCIdent b :=
   fun h => hne (cpp_names_injective_mod_case a b ha hb h)
 
@@ -93,8 +93,9 @@ theorem module_name_mangling_injective (x y : List Char) (hx : usSimple x = true
 /-- a package called `not-eq` gets namespace `not_eq_` -/
 theorem module_name_escaped : toCIdent "not_eq".toList = "not_eq_".toList := by decide +kernel
 
-/-- **Namespace mangling is injective**: distinct (package, interface) pairs get distinct
-namespace paths, for lower-case names and plain packages whose module names are snake case. -/
+/-- **Namespace mangling is injective** — PARTIAL: distinct (package, interface) pairs get distinct
+namespace paths, for lower-case names, plain packages (C27's hypotheses) and under the explicit
+hypothesis — not proved here for all valid packages — that both module names are snake case (`usSimple`). -/
 theorem cpp_namespace_paths_distinct_partial (pkgs : List Pkg) (p q : Pkg) (i j : List Char)
     (hp : p ∈ pkgs) (hq : q ∈ pkgs) (hpp : plainPkg p = true) (hqp : plainPkg q = true)
     (hpm : usSimple (namePackageModule pkgs p) = true) (hqm : usSimple (namePackageModule pkgs q) = true)
@@ -126,7 +127,7 @@ example : toCIdent "namespace".toList ∉ keywords23 := to_cpp_ident_not_keyword
 example : toCIdent "CO-await".toList ∉ keywords23 := to_cpp_ident_not_keyword _ (by decide)
 
 example : toCIdent "get-value".toList ≠ toCIdent "get-values".toList :=
-  cpp_names_injective _ _ (by decide) (by decide) (by decide)
+  cpp_names_injective_of_ne_mod_case _ _ (by decide) (by decide) (by decide)
 
 /-- the module-name hypothesis holds for versioned plain packages, and the theorem applies -/
 example :
